@@ -328,3 +328,63 @@ Example C04_nonvacuous_lookalike :
   raw_kind H265 3 [38; 1; 0; 0; 7; 1; 2; 3]%Z = 0%Z /\ raw_kind H265 0 [38; 1; 0; 0; 7; 1; 2; 3]%Z = 2%Z.
 Proof. vm_compute. repeat split. Qed.
 
+(* ---- FLV consumers of a converted stream ------------------------------------------------------
+   RTP is published; the FLV consumers are served by the chain  rtp demuxer -> FLV muxer/packetizer ->
+   WriteFlvTag -> FlvCache -> consumption.send, an instance of the LTS of its own (own join mutex, own
+   cache, own consumer map) whose packets are the muxer's tags ([chain_tags], Model/C04Chain.v).  For
+   them the key flag is the frame type the FLV packetizer writes (model of C08) as the FLV cache reads
+   it (model of C02).  For every single-NAL video packet ([cpkt_wf]: on the video channel, a NAL unit
+   the depacketizer hands on as a frame) that flag agrees with the RTP side's key-frame start: H.264
+   IDR, HEVC BLA / IDR / CRA (types 16..21).  Hence the backlog bound (three configuration tags
+   more) and the alignment of drops hold for the FLV consumers against the key-frame starts of the
+   published video. *)
+From V Require Import C08Flv C02FlvProducer C04Chain C04ChainProofs.
+Local Open Scope nat_scope.
+
+Theorem C04_flv_chain_key_agrees : forall hevc aac p, cpkt_wf hevc p = true ->
+  exists t, packetize (prod_cfg hevc aac) (chain_frame p) = Some [t] /\
+            tag_kind t = p_kind (tag_pkt hevc p) /\
+            p_key (tag_pkt hevc p) = p_key (rtp_pkt hevc p).
+Proof. exact flv_chain_key_agrees. Qed.
+Print Assumptions C04_flv_chain_key_agrees.
+
+(* the kinds of the whole tag list are what the C08 muxer writes, as the FLV cache classifies it *)
+Theorem C04_flv_chain_tags_are_mux_kinds : forall hevc pkts, forallb (cpkt_wf hevc) pkts = true ->
+  map p_kind (chain_tags hevc pkts) = prod_kinds hevc true (map chain_frame pkts).
+Proof. exact chain_tags_are_mux_kinds. Qed.
+Print Assumptions C04_flv_chain_tags_are_mux_kinds.
+
+Theorem C04_flv_chain_key_tags_are_video_keys : forall hevc pkts t,
+  forallb (cpkt_wf hevc) pkts = true -> In t (chain_tags hevc pkts) -> p_key t = true ->
+  exists p, In p pkts /\ p_id t = cp_id p /\ p_key (rtp_pkt hevc p) = true.
+Proof. exact flv_chain_key_tags. Qed.
+Print Assumptions C04_flv_chain_key_tags_are_video_keys.
+
+Theorem C04_flv_chain_backlog_bound :
+  forall maxq cache_t cache_empty cache_add cache_snap ncons panic_at hevc pkts G stoppers sched c,
+  forallb (cpkt_wf hevc) pkts = true -> gap_ok G (map (rtp_pkt hevc) pkts) = true ->
+  let k := s_cs cache_t (run fixed maxq cache_t cache_empty cache_add cache_snap ncons panic_at sched
+                             (init cache_t cache_empty (chain_tags hevc pkts) stoppers)) c in
+  length (c_q k) <= Nat.max maxq (length (c_prefill k)) + (G + 3) + 1.
+Proof. exact flv_chain_backlog_bound. Qed.
+Print Assumptions C04_flv_chain_backlog_bound.
+
+(* the oracle of the chain cases ([chain_ok]: both sides pass [ok_C04x]) accepts the model's prediction
+   ([chain_run]: the two LTS runs) *)
+Theorem C04_chain_model_passes : forall v,
+  l_var (dec_lcase v) = fixed -> chain_ok v (chain_run v) = true.
+Proof. exact chain_model_passes. Qed.
+Print Assumptions C04_chain_model_passes.
+
+(* non-vacuity: an HEVC CRA picture (type 21) is a key-frame start on both sides, a TRAIL_R (type 1) on
+   neither; an H.264 IDR slice on both *)
+Example C04_nonvacuous_chain :
+  let cra := {| cp_id := 7; cp_ch := 0; cp_data := [42; 1; 0; 0; 7; 9; 9]%Z |} in
+  let trail := {| cp_id := 8; cp_ch := 0; cp_data := [2; 1; 0; 0; 8; 9; 9]%Z |} in
+  let idr := {| cp_id := 9; cp_ch := 0; cp_data := [101; 0; 0; 0; 9; 9; 9]%Z |} in
+  cpkt_wf true cra = true /\ p_key (tag_pkt true cra) = true /\ p_key (rtp_pkt true cra) = true /\
+  cpkt_wf true trail = true /\ p_key (tag_pkt true trail) = false /\ p_key (rtp_pkt true trail) = false /\
+  cpkt_wf false idr = true /\ p_key (tag_pkt false idr) = true /\ p_key (rtp_pkt false idr) = true /\
+  map p_id (chain_tags true [cra; trail]) = [-1; -2; -3; 7; 8]%Z.
+Proof. vm_compute. repeat split. Qed.
+
